@@ -1,65 +1,91 @@
-//! BOUNDED stand-in for wac_types::validate_target (outside Verus's dialect: `continue` in for-loops, `.fold`),
-//! and the "same verdict" clause of C11: every (world, component) pair of a small universe is checked by the REAL
-//! stand-alone function and compared with the `conforms` relation that unit U9 proves for the resolution-time check
-//! (exact import/export names, `sub(promote(world item), component item)` for imports, the converse for exports).
-//! A disagreement is printed as `FINDING <key> ...`; key `semver-compatible-name` is the class recorded in
-//! known_findings.json (the stand-alone check resolves names semver-aware, the resolution-time check exactly).
-//! Exit 0 = no disagreement, 3 = only FINDING lines were printed, 1 = should not happen (reserved).
+//! BOUNDED stand-in for wac_types::validate_target (outside Verus's dialect: `continue` in for-loops, `.fold`), and the
+//! "same verdict" clause of C11.  Every (world, component) pair of a small universe is checked by the REAL stand-alone
+//! function and compared with TWO reference relations written from the property statement:
+//!   * `semver`: imports only items the world imports at types the world's imports satisfy, exports every export of the
+//!     world at a conforming type - with names looked up exactly, and failing that through a semver-compatible name
+//!     (highest version), as the stand-alone check documents.  The real function must agree with it on every pair:
+//!     any disagreement is a C11-BOUNDED VIOLATION.
+//!   * `exact`: the same relation with exact names only - what unit U9 proves for the resolution-time check
+//!     (AstResolver::validate_target).  Pairs on which the two references differ are the recorded known finding
+//!     `semver-compatible-name` ("the same verdict is reached by the stand-alone check" fails for them): printed as FINDING.
+//! Universe: names f, a:b/c, a:b/c@0.2.0, a:b/c@0.2.1, a:b/c@0.3.0; kinds: two function types, a small and a big instance
+//! (every instance type built per name, carrying the name as its interface id as decoded packages do).
+//! Exit 0 = no disagreement, 3 = only FINDING lines, 1 = violation.
 use indexmap::IndexMap;
 use wac_types::{are_semver_compatible, validate_target, FuncType, Interface, ItemKind, PrimitiveType, Types, ValueType, World};
+
+#[derive(Clone, Copy, PartialEq, Eq, Debug)]
+enum Kd { F1, F2, Small, Big }
+const KINDS: [Kd; 4] = [Kd::F1, Kd::F2, Kd::Small, Kd::Big];
+/// a <= b : an item of kind a can be used where kind b is required
+fn sub(a: Kd, b: Kd) -> bool { a == b || (a == Kd::Big && b == Kd::Small) }
+fn version(n: &str) -> (u64, u64, u64) { let v = n.split('@').nth(1).unwrap_or("0.0.0"); let mut it = v.split('.').map(|x| x.parse().unwrap_or(0)); (it.next().unwrap_or(0), it.next().unwrap_or(0), it.next().unwrap_or(0)) }
+
+/// lookup of `name` among `have`: exact, else (semver mode) the highest semver-compatible name
+fn lookup<'a>(have: &'a [(usize, Kd)], names: &[&str], name: &str, semver: bool) -> Option<Kd> {
+    if let Some((_, k)) = have.iter().find(|(n, _)| names[*n] == name) { return Some(*k); }
+    if !semver { return None; }
+    have.iter().filter(|(n, _)| names[*n] != name && are_semver_compatible(names[*n], name)).max_by_key(|(n, _)| version(names[*n])).map(|(_, k)| *k)
+}
 
 fn main() {
     let names = ["f", "a:b/c", "a:b/c@0.2.0", "a:b/c@0.2.1", "a:b/c@0.3.0"];
     let mut types = Types::default();
     let f1 = types.add_func_type(FuncType { params: IndexMap::new(), result: None, is_async: false });
     let f2 = types.add_func_type(FuncType { params: IndexMap::new(), result: Some(ValueType::Primitive(PrimitiveType::U8)), is_async: false });
-    let small = types.add_interface(Interface { id: None, uses: Default::default(), exports: [("x".to_string(), ItemKind::Func(f1))].into_iter().collect() });
-    let big = types.add_interface(Interface { id: None, uses: Default::default(), exports: [("x".to_string(), ItemKind::Func(f1)), ("y".to_string(), ItemKind::Func(f2))].into_iter().collect() });
-    let kinds = [ItemKind::Func(f1), ItemKind::Func(f2), ItemKind::Instance(small), ItemKind::Instance(big)];
-    // a <= b for these kinds
-    let sub = |a: ItemKind, b: ItemKind| -> bool {
-        match (a, b) {
-            (ItemKind::Func(x), ItemKind::Func(y)) => x == y,
-            (ItemKind::Instance(x), ItemKind::Instance(y)) => x == y || (x == big && y == small),
-            _ => false,
-        }
-    };
     // all maps with at most 2 entries
-    let mut maps: Vec<Vec<(usize, usize)>> = vec![vec![]];
-    for n1 in 0..names.len() { for k1 in 0..kinds.len() {
+    let mut maps: Vec<Vec<(usize, Kd)>> = vec![vec![]];
+    for n1 in 0..names.len() { for k1 in KINDS {
         maps.push(vec![(n1, k1)]);
-        for n2 in (n1 + 1)..names.len() { for k2 in 0..kinds.len() { if (n1 + n2 + k1 + k2) % 3 == 0 { maps.push(vec![(n1, k1), (n2, k2)]); } } }
+        for n2 in (n1 + 1)..names.len() { for (i2, k2) in KINDS.iter().enumerate() { if (n1 + n2 + k1 as usize + i2) % 3 == 0 { maps.push(vec![(n1, k1), (n2, *k2)]); } } }
     } }
-    let mk = |m: &Vec<(usize, usize)>| -> IndexMap<String, ItemKind> { m.iter().map(|(n, k)| (names[*n].to_string(), kinds[*k])).collect() };
-    let (mut pairs, mut agree_ok, mut findings_semver, mut other) = (0u64, 0u64, 0u64, 0u64);
-    let mut first_semver: Option<String> = None;
+    let mut build = |types: &mut Types, m: &Vec<(usize, Kd)>| -> IndexMap<String, ItemKind> {
+        m.iter().map(|(n, k)| {
+            let name = names[*n];
+            let kind = match k {
+                Kd::F1 => ItemKind::Func(f1), Kd::F2 => ItemKind::Func(f2),
+                Kd::Small | Kd::Big => {
+                    let mut exports: IndexMap<String, ItemKind> = [("x".to_string(), ItemKind::Func(f1))].into_iter().collect();
+                    if *k == Kd::Big { exports.insert("y".to_string(), ItemKind::Func(f2)); }
+                    ItemKind::Instance(types.add_interface(Interface { id: if name.contains('/') { Some(name.to_string()) } else { None }, uses: Default::default(), exports }))
+                }
+            };
+            (name.to_string(), kind)
+        }).collect()
+    };
+    let (mut pairs, mut both_ok, mut finding_pairs) = (0u64, 0u64, 0u64);
+    let mut first_finding: Option<String> = None;
     for wi in maps.iter().step_by(3) {
         for ci in maps.iter().step_by(2) {
-            // imports side
             for mode in 0..2 {
-                let (w_imp, w_exp, c_imp, c_exp) = if mode == 0 { (mk(wi), IndexMap::new(), mk(ci), IndexMap::new()) } else { (IndexMap::new(), mk(wi), IndexMap::new(), mk(ci)) };
-                let w = types.add_world(World { id: None, uses: Default::default(), imports: w_imp.clone(), exports: w_exp.clone() });
-                let c = types.add_world(World { id: None, uses: Default::default(), imports: c_imp.clone(), exports: c_exp.clone() });
+                // mode 0: imports, mode 1: exports
+                let empty: Vec<(usize, Kd)> = vec![];
+                let (w_imp, w_exp, c_imp, c_exp) = if mode == 0 { (wi, &empty, ci, &empty) } else { (&empty, wi, &empty, ci) };
+                let w = { let (i, e) = (build(&mut types, w_imp), build(&mut types, w_exp)); types.add_world(World { id: None, uses: Default::default(), imports: i, exports: e }) };
+                let c = { let (i, e) = (build(&mut types, c_imp), build(&mut types, c_exp)); types.add_world(World { id: None, uses: Default::default(), imports: i, exports: e }) };
                 let got = validate_target(&types, w, c).is_ok();
-                let expect = c_imp.iter().all(|(n, k)| w_imp.get(n).map(|e| sub(e.promote(), *k)).unwrap_or(false))
-                    && w_exp.iter().all(|(n, e)| c_exp.get(n).map(|k| sub(*k, e.promote())).unwrap_or(false));
+                let reference = |semver: bool| -> bool {
+                    // every component import is offered by the world at a type that satisfies it (world item <= required)
+                    c_imp.iter().all(|(n, k)| lookup(w_imp, &names, names[*n], semver).map(|e| sub(e, *k)).unwrap_or(false))
+                    // every world export is exported by the component at a conforming type
+                    && w_exp.iter().all(|(n, e)| lookup(c_exp, &names, names[*n], semver).map(|k| sub(k, *e)).unwrap_or(false))
+                };
+                let (exp_semver, exp_exact) = (reference(true), reference(false));
                 pairs += 1;
-                if got == expect { if got { agree_ok += 1; } continue; }
-                // classify: is some name of one side matched only up to a compatible version on the other side?
-                let (have, want): (Vec<&String>, Vec<&String>) = if mode == 0 { (w_imp.keys().collect(), c_imp.keys().collect()) } else { (c_exp.keys().collect(), w_exp.keys().collect()) };
-                let semver = want.iter().any(|n| !have.contains(n) && have.iter().any(|h| are_semver_compatible(h, n)));
-                if semver {
-                    findings_semver += 1;
-                    if first_semver.is_none() { first_semver = Some(format!("world imports {:?} exports {:?}; component imports {:?} exports {:?}: stand-alone says {}, exact-name conformance says {}", w_imp.keys().collect::<Vec<_>>(), w_exp.keys().collect::<Vec<_>>(), c_imp.keys().collect::<Vec<_>>(), c_exp.keys().collect::<Vec<_>>(), got, expect)); }
-                } else {
-                    other += 1;
-                    println!("FINDING unexplained-disagreement world imports {:?} exports {:?}; component imports {:?} exports {:?}: stand-alone validate_target says {}, the conformance relation says {}", w_imp, w_exp, c_imp, c_exp, got, expect);
-                    if other > 3 { break; }
+                let show = || format!("world imports {:?} exports {:?}; component imports {:?} exports {:?}", w_imp.iter().map(|(n, k)| (names[*n], *k)).collect::<Vec<_>>(), w_exp.iter().map(|(n, k)| (names[*n], *k)).collect::<Vec<_>>(), c_imp.iter().map(|(n, k)| (names[*n], *k)).collect::<Vec<_>>(), c_exp.iter().map(|(n, k)| (names[*n], *k)).collect::<Vec<_>>());
+                if got != exp_semver {
+                    println!("C11-BOUNDED VIOLATION: stand-alone validate_target says {}, the property (names looked up semver-aware) gives {}: {}", got, exp_semver, show());
+                    std::process::exit(1);
+                }
+                if got { both_ok += 1; }
+                if exp_semver != exp_exact {
+                    finding_pairs += 1;
+                    if first_finding.is_none() { first_finding = Some(format!("{}: stand-alone says {}, exact-name conformance (resolution time) says {}", show(), got, exp_exact)); }
                 }
             }
         }
     }
-    if let Some(s) = &first_semver { println!("FINDING semver-compatible-name {findings_semver} pairs, e.g. {s}"); }
-    println!("C11-BOUNDED {} {{\"bounded\": true, \"pairs\": {pairs}, \"both_conform\": {agree_ok}, \"semver_name_disagreements\": {findings_semver}, \"other_disagreements\": {other}}}", if findings_semver + other == 0 { "ok" } else { "findings" });
-    std::process::exit(if findings_semver + other == 0 { 0 } else { 3 });
+    if let Some(s) = &first_finding { println!("FINDING semver-compatible-name {finding_pairs} pairs, e.g. {s}"); }
+    println!("C11-BOUNDED {} {{\"bounded\": true, \"pairs\": {pairs}, \"conforming\": {both_ok}, \"pairs_where_exact_and_semver_lookup_differ\": {finding_pairs}}}", if finding_pairs == 0 { "ok" } else { "findings" });
+    std::process::exit(if finding_pairs == 0 { 0 } else { 3 });
 }
